@@ -43,6 +43,10 @@ def gen_explicit_h(R, tier):
     wa = R.choice([None, '0.5', '2', '0'])
     atom = '[%s;%s]' % (heavy, wa) if wa else heavy
     frag = '[$]%s%s[$]' % (atom, hs)
+    if k >= 1 and R.chance(0.35):
+        # the first explicitly written hydrogen is the first atom of the fragment
+        first = hs[1:hs.index(')')]
+        frag = '%s%s%s[$][$]' % (first, atom, hs[hs.index(')') + 1:])
     term = R.choice(['[$][H]', '[$]H', '[$]O', '[$]C'])
     s = base + '.{#A=%s,#T=%s}' % (frag, term)
     return dict(input=s, last_all_atom=True, legacy=True, kind='explicit_h', dedicated=False, nlevels=1,
@@ -76,6 +80,14 @@ def gen_sampler(R, tier):
 
 
 def gen(R, tier):
+    case = gen_inner(R, tier)
+    if case is not None and R.chance(0.1):
+        case['pre_mass'] = R.randrange(4)
+        case['features'] = sorted(set(case['features']) | {'after_compute_mass_on_plain_molecule'})
+    return case
+
+
+def gen_inner(R, tier):
     r = R.random()
     if r < 0.12:
         return gen_explicit_h(R, tier)
@@ -104,7 +116,15 @@ def key(case):
     return case['input']
 
 
+PLAIN = ['CCO', 'c1ccccc1N', 'CC(=O)[O-]', 'C']
+
+
 def oracle(case):
+    if case.get('pre_mass') is not None:
+        # a public helper used on a plain pysmiles molecule before anything else happens
+        import pysmiles
+        from cgsmiles.pysmiles_utils import compute_mass
+        sut(lambda: compute_mass(pysmiles.read_smiles(PLAIN[case['pre_mass']])))
     if case['kind'] == 'sampler':
         from .. import sampler
         smp, g, err = sampler.run_cfg(case)
